@@ -355,6 +355,10 @@ class NodeCtx:
         dc = [(g, q) for g, q in ptr_cases(data) if q.obj is not None]
         if not dc and n:
             raise Unsupported('%s buffer pointer is null' % what)
+        # IndexOf<uint32_t> / IndexOf<uint8_t> hold unsigned elements: the element class is read off the Index object's own vptr
+        vp = o.cells.get(ip.off)
+        vnames = [str(q.obj) for g, q in ptr_cases(vp[0]) if q.obj is not None] if vp else []
+        unsigned = any('IndexOfIjE' in v or 'IndexOfIhE' in v for v in vnames)
         out = []
         for i in range(n):
             v = None
@@ -362,7 +366,7 @@ class NodeCtx:
                 arr = mem.o[q.obj]
                 e = z3.Select(arr.arr, z3.simplify(q.off + off + i))
                 if e.size() < 64:
-                    e = z3.SignExt(64 - e.size(), e)
+                    e = z3.ZeroExt(64 - e.size(), e) if unsigned else z3.SignExt(64 - e.size(), e)
                 v = e if v is None else z3.If(g, e, v)
             out.append(z3.simplify(v))
         return out, n
@@ -491,6 +495,8 @@ CLASSES = {
     'N7awkward12RegularArrayE': ('RA', '_ZNK7awkward12RegularArray6lengthEv', 'regular'),
     'N7awkward17ListOffsetArrayOfIlEE': ('LOA', '_ZNK7awkward17ListOffsetArrayOfIlE6lengthEv', 'listoffset'),
     'N7awkward11ListArrayOfIlEE': ('LA', '_ZNK7awkward11ListArrayOfIlE6lengthEv', 'list'),
+    'N7awkward11ListArrayOfIiEE': ('LA', '_ZNK7awkward11ListArrayOfIiE6lengthEv', 'list'), 'N7awkward11ListArrayOfIjEE': ('LA', '_ZNK7awkward11ListArrayOfIjE6lengthEv', 'list'),
+    'N7awkward17ListOffsetArrayOfIiEE': ('LOA', '_ZNK7awkward17ListOffsetArrayOfIiE6lengthEv', 'listoffset'), 'N7awkward17ListOffsetArrayOfIjEE': ('LOA', '_ZNK7awkward17ListOffsetArrayOfIjE6lengthEv', 'listoffset'),
     'N7awkward14IndexedArrayOfIlLb1EEE': ('IA', '_ZNK7awkward14IndexedArrayOfIlLb1EE6lengthEv', 'option'),
     'N7awkward14IndexedArrayOfIlLb0EEE': ('IA', '_ZNK7awkward14IndexedArrayOfIlLb0EE6lengthEv', 'indexed'),
     'N7awkward13UnmaskedArrayE': ('UMA', '_ZNK7awkward13UnmaskedArray6lengthEv', 'unmasked'),
